@@ -1486,3 +1486,33 @@ Proof.
            ++ apply in_rung_In in Hi as [p Hp]. exact (g_in_lab _ _ _ _ _ Hall r p Hp).
            ++ destruct (g_rep _ _ _ _ _ Hall r v Hv) as [_ B]. apply B. congruence.
 Qed.
+
+(* ------------------------------------------------------------------ *)
+(* synchronous Hyperband: the resource > prev_level guard               *)
+(* ------------------------------------------------------------------ *)
+Lemma sync_step_nodup all mx s e s' : sync_step all mx s e = Ok s' -> obs_nodup s -> obs_nodup s'.
+Proof.
+  destruct e as [t ms|t r v ms prev|t]; cbn [sync_step].
+  - unfold sync_on_suggest. intros H Hn. unfold obs_nodup. rewrite (register_pending_obs _ _ _ _ H). exact Hn.
+  - intro H. inversion H; subst. unfold sync_on_result. destruct (prev <? r); [|auto]. destruct (all || (r =? ms)); [apply label_nodup | auto].
+  - intro H. inversion H; subst. auto.
+Qed.
+(* a report at a level the trial had already reached before the current job (run restarted from
+   scratch) changes nothing; a report is stored exactly when it lies above the previous rung level and
+   the policy selects it, and then only the entry (t, r) changes *)
+Lemma sync_guard all mx s t r v ms prev :
+  (r <= prev -> sync_on_result all mx s t r v ms prev = s) /\
+  (prev < r -> (all = true \/ r = ms) ->
+     sync_on_result all mx s t r v ms prev = label s t r (if mx then (1 - v)%Q else v)) /\
+  (prev < r -> all = false -> r <> ms -> sync_on_result all mx s t r v ms prev = s) /\
+  (forall k c, fst k <> t \/ snd k <> r -> In (k, c) (obs (sync_on_result all mx s t r v ms prev)) <-> In (k, c) (obs s)).
+Proof.
+  unfold sync_on_result. repeat split.
+  - intro H. assert (E : (prev <? r) = false) by lia. rewrite E. reflexivity.
+  - intros H [Ha|Hm]; assert (E : (prev <? r) = true) by lia; rewrite E; [rewrite Ha; reflexivity | rewrite Hm, Z.eqb_refl, orb_true_r; reflexivity].
+  - intros H -> Hne. assert (E : (prev <? r) = true) by lia. assert (E2 : (r =? ms) = false) by lia. rewrite E, E2. reflexivity.
+  - destruct (prev <? r); [|auto]. destruct (all || (r =? ms)); [|auto]. cbn [label obs]. intro Hin.
+    apply In_set_obs in Hin as [[E _]|[[_ Hin]|[E _]]]; [subst k; cbn in H; lia | exact Hin | subst k; cbn in H; lia].
+  - destruct (prev <? r); [|auto]. destruct (all || (r =? ms)); [|auto]. cbn [label obs]. intro Hin.
+    apply set_obs_keeps; [intro E; subst k; cbn in H; lia | exact Hin].
+Qed.
